@@ -104,6 +104,32 @@ def r16_eq_hash(ctx):
     rep.check(okpair, rule, ctx.fkey(eq, None, "same-attribute"), eq.loc(),
               "each comparison pairs the same attribute of both operands",
               "__eq__ compares different attributes: %s" % why, P14)
+    # identity components are compared / hashed as they are: no method of a
+    # component (a lossy projection such as get_days_and_seconds()) stands
+    # between the slot and the comparison
+    from ..flow import alternatives
+    for fn_ in (eq, hs):
+        projected = []
+        for n in walk_no_nested(fn_.node):
+            if not (isinstance(n, ast.Call) and isinstance(
+                    n.func, ast.Attribute)):
+                continue
+            recv = n.func.value
+            srcs = [recv]
+            if isinstance(recv, ast.Name):
+                alts = alternatives(fn_.node, recv.id)
+                srcs = [v for v, _ in alts] if alts else []
+            for v in srcs:
+                if isinstance(v, ast.Attribute) and v.attr in ident and \
+                        isinstance(v.value, ast.Name):
+                    projected.append("%s.%s()" % (U(v), n.func.attr))
+        rep.check(not projected, rule,
+                  ctx.fkey(fn_, None, "components-as-they-are"), fn_.loc(),
+                  "%s uses the recurrence's components themselves" %
+                  fn_.name,
+                  "%s compares/hashes %s instead of the component itself: "
+                  "recurrences whose components differ (P1M / P30D) are "
+                  "identified" % (fn_.name, sorted(set(projected))), P14)
     # ---------------------------------------------------------- Duration
     rule = "R16.duration"
     dur = m.cls("Duration")
@@ -421,11 +447,37 @@ def r16_eq_hash(ctx):
                      n.func, ast.Subscript) and U(n.func.value) ==
                  "_operator_map"]
         for c in calls:
-            if len(c.args) != 2:
-                continue
-            ra = _roots(cmpf, c.args[0])
-            rb = _roots(cmpf, c.args[1])
             selfn, othern = cmpf.params[0], cmpf.params[1]
+            if len(c.args) == 1 and isinstance(c.args[0], ast.Starred):
+                # op(*keys): keys built by a comprehension over the operand
+                # pair; the order of the pair is the order of the operands
+                from .zone import receiver_sources
+                seq = c.args[0].value
+                order = None
+                if isinstance(seq, ast.Name):
+                    ds = [n for n in walk_no_nested(cmpf.node)
+                          if isinstance(n, ast.Assign) and any(
+                              isinstance(t, ast.Name) and t.id == seq.id
+                              for t in n.targets)]
+                    if len(ds) == 1 and isinstance(ds[0].value, ast.ListComp):
+                        comp = ds[0].value
+                        tnames = [x for x in ast.walk(
+                            comp.generators[0].target)
+                            if isinstance(x, ast.Name)]
+                        for tn in tnames:
+                            srcs = receiver_sources(cmpf, tn)
+                            if len(srcs) == 2 and srcs[0] is not tn:
+                                order = [_roots(cmpf, s_) for s_ in srcs]
+                if order is None:
+                    rep.error("R16", "TimePoint._cmp: operands of %s not "
+                              "identified" % U(c))
+                    continue
+                ra, rb = order
+            elif len(c.args) != 2:
+                continue
+            else:
+                ra = _roots(cmpf, c.args[0])
+                rb = _roots(cmpf, c.args[1])
             good = (selfn in ra and othern not in ra and othern in rb and
                     selfn not in rb)
             rep.check(good, rule, ctx.fkey(cmpf, c, "operand-order"),
@@ -459,10 +511,19 @@ def _roots(f, expr, depth=0, seen=None):
             if n.id not in seen and depth < 6:
                 seen.add(n.id)
                 for st in walk_no_nested(f.node):
-                    if isinstance(st, ast.Assign) and any(
-                            isinstance(t, ast.Name) and t.id == n.id
-                            for t in st.targets):
-                        out |= _roots(f, st.value, depth + 1, seen)
+                    if not isinstance(st, ast.Assign):
+                        continue
+                    for t in st.targets:
+                        if isinstance(t, ast.Name) and t.id == n.id:
+                            out |= _roots(f, st.value, depth + 1, seen)
+                        elif isinstance(t, (ast.Tuple, ast.List)):
+                            for i, e in enumerate(t.elts):
+                                if isinstance(e, ast.Name) and e.id == n.id:
+                                    v = st.value
+                                    if isinstance(v, (ast.Tuple, ast.List)) \
+                                            and len(v.elts) == len(t.elts):
+                                        v = v.elts[i]
+                                    out |= _roots(f, v, depth + 1, seen)
     return out
 
 
